@@ -23,7 +23,7 @@ const flushNonce = uint64(0xF1F1F1F1F1F1F1F1)
 
 // waitLimit bounds every wait of the harness; reaching it is reported in the
 // observation (never silently).
-var waitLimit = 8 * time.Second
+var waitLimit = 15 * time.Second
 
 // noteTimeout shortens later waits once a few have expired, so that a tree on
 // which the peer hangs is reported in minutes rather than hours.
@@ -39,7 +39,7 @@ func noteTimeout() {
 
 // leakLimit is how long goroutines of a disconnected peer get to finish before
 // they are reported as leaked.
-var leakLimit = 3 * time.Second
+var leakLimit = 10 * time.Second
 
 // ---------------------------------------------------------------- census
 
